@@ -176,10 +176,18 @@ type plan struct {
 	CliAccept   []string `json:"cli_accept"`    // experimental.AcceptCompressors; nil = not used
 	SrvLegacyCP string   `json:"srv_legacy_cp"` // RPCCompressor: "", srvlegacy27, gzip
 	SrvLegacyDC string   `json:"srv_legacy_dc"` // RPCDecompressor: "", legacyc27, gzip
-	SrvSet      string   `json:"srv_set"`       // grpc.SetSendCompressor(ctx, name) in the handler; "" = not called
 	Stream      bool     `json:"stream"`
+	Shape       string   `json:"shape,omitempty"` // streaming: "" = bidi, "server" = server-streaming (one request)
 	Reqs        [][]byte `json:"reqs"`
-	Resps       [][]byte `json:"resps"`
+	// Ops is the sequence of header / compressor / send operations the handler
+	// executes (c27_ops_test.go); Pre of them run before a streaming handler
+	// starts receiving.
+	Ops []srvOp `json:"ops"`
+	Pre int     `json:"pre,omitempty"`
+	// Only in plans written before Ops existed (Ops == null): SetSendCompressor
+	// at handler entry, then one send per response.
+	SrvSet string   `json:"srv_set,omitempty"`
+	Resps  [][]byte `json:"resps,omitempty"`
 }
 
 func genMsg(rt *rapid.T) []byte {
@@ -213,9 +221,19 @@ func genMsgs(rt *rapid.T, n int, label string) [][]byte {
 	return out
 }
 
-func genPlan(rt *rapid.T) plan {
+// genConfig draws the client / server compression configuration and the
+// requests. focused = only configurations in which the RPC reaches the handler
+// (used by unit "hdrorder", whose subject is the handler's operation order).
+func genConfig(rt *rapid.T, focused bool) plan {
 	p := plan{Stream: rapid.IntRange(0, 4).Draw(rt, "stream") > 0}
-	p.CliUse = rapid.SampledFrom([]string{"", "", "gzip", nameA, nameA, nameB, nameB, "identity", nameNope}).Draw(rt, "cli_use")
+	if p.Stream && rapid.IntRange(0, 4).Draw(rt, "server_streaming") == 0 {
+		p.Shape = "server"
+	}
+	if focused {
+		p.CliUse = rapid.SampledFrom([]string{"", "", "", "gzip", "gzip", nameA, nameB, "identity"}).Draw(rt, "cli_use")
+	} else {
+		p.CliUse = rapid.SampledFrom([]string{"", "", "gzip", nameA, nameA, nameB, nameB, "identity", nameNope}).Draw(rt, "cli_use")
+	}
 	p.CliLegacyCP = rapid.SampledFrom([]string{"", "", "", nameLegacyC, nameLegacyC, "gzip"}).Draw(rt, "cli_legacy_cp")
 	p.CliLegacyDC = rapid.SampledFrom([]string{"", "", "", nameLegacyS, "gzip"}).Draw(rt, "cli_legacy_dc")
 	if rapid.IntRange(0, 2).Draw(rt, "accept_set") == 0 {
@@ -234,13 +252,26 @@ func genPlan(rt *rapid.T) plan {
 	}
 	p.SrvLegacyCP = rapid.SampledFrom([]string{"", "", "", "", nameLegacyS, "gzip"}).Draw(rt, "srv_legacy_cp")
 	p.SrvLegacyDC = rapid.SampledFrom([]string{"", "", "", nameLegacyC, nameLegacyC, "gzip"}).Draw(rt, "srv_legacy_dc")
-	p.SrvSet = rapid.SampledFrom([]string{"", "", "", "gzip", nameA, nameB, "identity", nameNope, nameLegacyS}).Draw(rt, "srv_set")
-	nreq, nresp := 1, 1
-	if p.Stream {
-		nreq, nresp = rapid.SampledFrom([]int{1, 2, 2, 3, 4}).Draw(rt, "nreq"), rapid.SampledFrom([]int{1, 2, 2, 3, 4}).Draw(rt, "nresp")
+	if focused && p.CliUse == "" && p.CliLegacyCP == nameLegacyC {
+		p.SrvLegacyDC = nameLegacyC // otherwise the server answers UNIMPLEMENTED before the handler runs
+	}
+	nreq := 1
+	if p.Stream && p.Shape == "" {
+		nreq = rapid.SampledFrom([]int{1, 2, 2, 3, 4}).Draw(rt, "nreq")
 	}
 	p.Reqs = genMsgs(rt, nreq, "req")
-	p.Resps = genMsgs(rt, nresp, "resp")
+	return p
+}
+
+func genPlan(rt *rapid.T) plan {
+	p := genConfig(rt, false)
+	p.Ops, p.Pre = genOps(rt, p.Stream)
+	return p
+}
+
+func genPlanFocused(rt *rapid.T) plan {
+	p := genConfig(rt, true)
+	p.Ops, p.Pre = genOpsFocused(rt, p)
 	return p
 }
 
@@ -323,8 +354,7 @@ type srvLog struct {
 	mu      sync.Mutex
 	calls   int
 	reqs    [][]byte
-	setErr  error
-	setDone bool
+	results []error // return value of the k-th executed handler operation
 	adv     []string
 }
 
@@ -353,7 +383,18 @@ func legacyDCOf(name string) grpc.Decompressor {
 
 func runInBubble(p plan) vk.Result {
 	out := vk.Result{}
-	cls := func(c string) { out.Classes = append(out.Classes, c) }
+	seenCls := map[string]bool{}
+	cls := func(c string) {
+		if !seenCls[c] {
+			seenCls[c] = true
+			out.Classes = append(out.Classes, c)
+		}
+	}
+	ops, pre := p.handlerOps()
+	reqs := p.Reqs
+	if p.Stream && p.Shape == "server" && len(reqs) > 1 {
+		reqs = reqs[:1]
+	}
 	log := &srvLog{}
 	onEntry := func(ctx context.Context) {
 		log.mu.Lock()
@@ -364,12 +405,14 @@ func runInBubble(p plan) vk.Result {
 			log.adv = adv
 			log.mu.Unlock()
 		}
-		if p.SrvSet != "" {
-			err := grpc.SetSendCompressor(ctx, p.SrvSet)
-			log.mu.Lock()
-			log.setErr, log.setDone = err, true
-			log.mu.Unlock()
-		}
+	}
+	// do executes one handler operation and records its result.
+	do := func(ctx context.Context, st grpc.ServerStream, op srvOp) error {
+		err := execOp(ctx, st, op)
+		log.mu.Lock()
+		log.results = append(log.results, err)
+		log.mu.Unlock()
+		return err
 	}
 	opts := e2e.Options{
 		Tap: &e2e.Tap{},
@@ -378,10 +421,17 @@ func runInBubble(p plan) vk.Result {
 			log.mu.Lock()
 			log.reqs = append(log.reqs, req)
 			log.mu.Unlock()
-			return p.Resps[0], nil
+			// handlerOps: a unary sequence ends with exactly one send = the return value
+			for _, op := range ops[:len(ops)-1] {
+				_ = do(ctx, nil, op)
+			}
+			return ops[len(ops)-1].Msg, nil
 		},
 		Stream: func(st grpc.ServerStream) error {
 			onEntry(st.Context())
+			for _, op := range ops[:pre] {
+				_ = do(st.Context(), st, op)
+			}
 			for {
 				b, err := e2e.RecvBytes(st)
 				if err == io.EOF {
@@ -394,8 +444,8 @@ func runInBubble(p plan) vk.Result {
 				log.reqs = append(log.reqs, b)
 				log.mu.Unlock()
 			}
-			for _, r := range p.Resps {
-				if err := e2e.SendBytes(st, r); err != nil {
+			for _, op := range ops[pre:] {
+				if err := do(st.Context(), st, op); err != nil && op.Kind == opSend {
 					return err
 				}
 			}
@@ -433,17 +483,25 @@ func runInBubble(p plan) vk.Result {
 	var finalErr error
 	var gotResps [][]byte
 	if !p.Stream {
-		resp, err := pair.Unary(ctx, e2e.UnaryMethod, p.Reqs[0], co...)
+		cls("shape_unary")
+		resp, err := pair.Unary(ctx, e2e.UnaryMethod, reqs[0], co...)
 		finalErr = err
 		if err == nil {
 			gotResps = append(gotResps, resp)
 		}
 	} else {
-		cs, err := pair.NewStream(ctx, e2e.StreamMethod, true, true, co...)
+		method, clientStreams := e2e.StreamMethod, true
+		if p.Shape == "server" {
+			method, clientStreams = e2e.SStreamMethod, false
+			cls("shape_server_streaming")
+		} else {
+			cls("shape_bidi")
+		}
+		cs, err := pair.NewStream(ctx, method, clientStreams, true, co...)
 		if err != nil {
 			finalErr = err
 		} else {
-			for _, r := range p.Reqs {
+			for _, r := range reqs {
 				if err := e2e.SendBytes(cs, r); err != nil {
 					if err != io.EOF {
 						finalErr = err
@@ -541,7 +599,7 @@ func runInBubble(p plan) vk.Result {
 		cls("req_compressed")
 	}
 	reqMsgs, _ := e2e.MessagesOf(cf, id)
-	if v := checkMessages("request", reqEnc, reqMsgs, p.Reqs); v != "" {
+	if v := checkMessages("request", reqEnc, reqMsgs, reqs); v != "" {
 		return bad("%s", v)
 	}
 	// non-trivial: non-identity encoding in a direction whose wire carries >= 1 empty and >= 1 non-empty message
@@ -559,13 +617,12 @@ func runInBubble(p plan) vk.Result {
 		}
 		return e && ne
 	}
-	if mixed(reqEnc, reqMsgs, p.Reqs) {
-		out.NonTrivial = true
-	}
+	mixedCase := mixed(reqEnc, reqMsgs, reqs)
 
 	// ---- server side
 	if nonIdentity(reqEnc) && !serverCanDecode(p, reqEnc) {
 		cls("server_unsupported_encoding")
+		out.NonTrivial = mixedCase
 		if status.Code(finalErr) != codes.Unimplemented {
 			return bad("server has no decompressor for %q: client status = %v (%v), want Unimplemented", reqEnc, status.Code(finalErr), finalErr)
 		}
@@ -574,13 +631,51 @@ func runInBubble(p plan) vk.Result {
 		}
 		return out
 	}
+
+	// ---- what the response looks like on the wire (independent decode)
+	var respHdr []e2e.WireFrame // response HEADERS frames that are not trailers
+	for _, h := range e2e.HeadersOf(sf, id) {
+		if len(h.Get("grpc-status")) == 0 {
+			respHdr = append(respHdr, h)
+		}
+	}
+	if len(respHdr) > 1 {
+		return bad("%d response HEADERS frames before the trailers", len(respHdr))
+	}
+	respEnc := ""
+	if len(respHdr) == 1 {
+		if e := respHdr[0].Get("grpc-encoding"); len(e) == 1 {
+			respEnc = e[0]
+		} else if len(e) > 1 {
+			return bad("response carries %d grpc-encoding fields", len(e))
+		}
+	}
+	respMsgs, _ := e2e.MessagesOf(sf, id)
+	// The client gives up as soon as it sees an encoding it does not accept /
+	// the first compressed message it cannot decode; what the handler observes
+	// after the headers are out then depends on timing.
+	notAccepted := nonIdentity(respEnc) && p.CliAccept != nil && !contains(normAccept(p.CliAccept), respEnc)
+	clientMayAbort := notAccepted || (nonIdentity(respEnc) && !clientCanDecode(p, respEnc))
+
+	// ---- reference model of the handler's operation sequence
+	def := ""
+	switch {
+	case p.SrvLegacyCP != "":
+		def = p.SrvLegacyCP
+	case nonIdentity(reqEnc) && isRegistered(reqEnc):
+		def = reqEnc
+	}
+	m := modelOps(ops, def, adv)
+	sent := m.sent
+	earlyFlush := m.firstWire >= 0 && m.firstWire < pre // headers on the wire before the handler has read its requests
+
 	// every request is decoded with the named compressor: delivered intact
-	if len(log.reqs) != len(p.Reqs) {
-		return bad("handler received %d requests, want %d (encoding %q, client err %v)", len(log.reqs), len(p.Reqs), reqEnc, finalErr)
+	if len(log.reqs) != len(reqs) && !(clientMayAbort && earlyFlush && len(log.reqs) < len(reqs)) {
+		return bad("handler received %d requests, want %d (encoding %q, client err %v)", len(log.reqs), len(reqs), reqEnc, finalErr)
 	}
 	for i, b := range log.reqs {
-		if !bytes.Equal(b, p.Reqs[i]) {
-			return bad("request %d delivered as %q, sent %q (grpc-encoding %q)", i, b, p.Reqs[i], reqEnc)
+		if !bytes.Equal(b, reqs[i]) {
+			return bad("request %d delivered as %q, sent %q (grpc-encoding %q)", i, b, reqs[i], reqEnc)
 		}
 	}
 	if log.calls != 1 {
@@ -591,45 +686,75 @@ func runInBubble(p plan) vk.Result {
 		return bad("ClientSupportedCompressors = %q, wire grpc-accept-encoding = %q", log.adv, adv)
 	}
 
-	// ---- expected response encoding
-	wantRespEnc := ""
+	// ---- classes of the operation sequence
+	if m.setOK {
+		cls("set_send_compressor_valid")
+	}
+	if m.setNotAdvertised {
+		cls("set_send_compressor_not_advertised")
+	}
+	if m.setUnregistered {
+		cls("set_send_compressor_unregistered")
+	}
+	if m.setAfterHeaders {
+		cls("ops_set_after_headers_sent")
+	}
+	if m.setRepeated {
+		cls("ops_set_repeated_different_names")
+	}
 	switch {
-	case p.SrvLegacyCP != "":
-		wantRespEnc = p.SrvLegacyCP
-	case nonIdentity(reqEnc) && isRegistered(reqEnc):
-		wantRespEnc = reqEnc
+	case m.explicitBeforeFirstSend:
+		cls("ops_explicit_flush_before_first_send")
+	case m.explicitAfterSend:
+		cls("ops_explicit_flush_after_send")
+	default:
+		cls("ops_no_explicit_flush")
 	}
-	if p.SrvSet != "" {
-		valid := p.SrvSet == "identity" || (isRegistered(p.SrvSet) && contains(adv, p.SrvSet))
-		if valid {
-			cls("set_send_compressor_valid")
-			if log.setErr != nil {
-				return bad("SetSendCompressor(%q) failed although it is registered and advertised (%q): %v", p.SrvSet, adv, log.setErr)
-			}
-			wantRespEnc = p.SrvSet
-		} else {
-			if isRegistered(p.SrvSet) {
-				cls("set_send_compressor_not_advertised")
-			} else {
-				cls("set_send_compressor_unregistered")
-			}
-			if log.setErr == nil {
-				return bad("SetSendCompressor(%q) succeeded although it is not registered or not advertised by the client (%q)", p.SrvSet, adv)
-			}
+	if len(sent) == 0 {
+		cls("ops_zero_sends")
+	}
+	if pre > 0 {
+		cls("ops_pre_recv")
+	}
+	if earlyFlush {
+		cls("ops_pre_recv_flush")
+	}
+	if m.headerMD {
+		cls("ops_header_md")
+	}
+	if m.trailerMD {
+		cls("ops_trailer_md")
+	}
+	if normEnc(m.announced) != normEnc(def) && m.hdrFrame {
+		cls("ops_encoding_differs_from_default")
+	}
+	hdrOrder := m.changedAtFlush && len(sent) > 0
+	if hdrOrder {
+		cls("set_compressor_then_explicit_header_flush")
+		if m.nonEmptySent {
+			cls("set_compressor_then_explicit_header_flush_nonempty_msg")
 		}
 	}
-	respH := e2e.HeadersOf(sf, id)
-	respEnc := ""
-	if len(respH) >= 1 {
-		if e := respH[0].Get("grpc-encoding"); len(e) == 1 {
-			respEnc = e[0]
-		} else if len(e) > 1 {
-			return bad("response carries %d grpc-encoding fields", len(e))
+
+	// ---- SetSendCompressor: nil iff the name is identity or (registered and
+	// advertised) and the headers have not been sent; these results do not
+	// depend on timing (after the headers are out every call fails).
+	for i, err := range log.results {
+		if ops[i].Kind != opSet {
+			continue
+		}
+		if (err != nil) != m.wantErr[i] {
+			if m.wantErr[i] {
+				return bad("handler op %d %v succeeded; it must fail (registered=%v advertised=%v (%q), headers already sent=%v) [ops %v]", i, ops[i], isRegistered(ops[i].Name), contains(adv, ops[i].Name), adv, m.firstWire >= 0 && m.firstWire < i, ops)
+			}
+			return bad("handler op %d %v failed although the name is identity or registered and advertised (%q) and the headers were not sent yet: %v [ops %v]", i, ops[i], adv, err, ops)
 		}
 	}
-	if len(respH) == 2 { // headers + trailers: the encoding was announced
-		if respEnc != wantRespEnc && !(wantRespEnc == "identity" && respEnc == "") && !(wantRespEnc == "" && respEnc == "identity") {
-			return bad("response grpc-encoding = %q, want %q (request encoding %q, RPCCompressor %q, SetSendCompressor %q err=%v)", respEnc, wantRespEnc, reqEnc, p.SrvLegacyCP, p.SrvSet, log.setErr)
+
+	// ---- the stream's grpc-encoding is the choice in force when the headers went out
+	if len(respHdr) == 1 && m.hdrFrame {
+		if normEnc(respEnc) != normEnc(m.announced) {
+			return bad("response grpc-encoding = %q, want %q (request encoding %q, RPCCompressor %q, handler ops %v)", respEnc, m.announced, reqEnc, p.SrvLegacyCP, ops)
 		}
 	}
 	if nonIdentity(respEnc) {
@@ -642,19 +767,38 @@ func runInBubble(p plan) vk.Result {
 			}
 		}
 	}
-	respMsgs, _ := e2e.MessagesOf(sf, id)
-	if v := checkMessages("response", respEnc, respMsgs, p.Resps); v != "" {
-		r := bad("%s [RPCCompressor %q SetSendCompressor %q]", v, p.SrvLegacyCP, p.SrvSet)
+	// ---- every response message against the grpc-encoding that is on the wire
+	if v := checkMessages("response", respEnc, respMsgs, sent); v != "" {
 		// (RPCCompressor + SetSendCompressor("identity") still compressing was fixed in /repo 56d424b:
 		// a recurrence is a plain violation.)
-		return r
+		return bad("%s [RPCCompressor %q, request encoding %q, handler ops %v]", v, p.SrvLegacyCP, reqEnc, ops)
 	}
-	if mixed(respEnc, respMsgs, p.Resps) {
-		out.NonTrivial = true
+	if mixed(respEnc, respMsgs, sent) {
+		mixedCase = true
+	}
+	out.NonTrivial = mixedCase || (hdrOrder && m.nonEmptySent)
+
+	// ---- the other handler operations (documented header semantics). send and
+	// SetTrailer after the headers are out are timing dependent when the
+	// client is expected to give up.
+	for i, err := range log.results {
+		k := ops[i].Kind
+		if k == opSet {
+			continue
+		}
+		if clientMayAbort && m.firstWire >= 0 && i >= m.firstWire && (k == opSend || k == opSetTrailer) {
+			continue
+		}
+		if (err != nil) != m.wantErr[i] {
+			return bad("handler op %d %v returned %v, want error=%v (headers go out at op %d) [ops %v]", i, ops[i], err, m.wantErr[i], m.firstWire, ops)
+		}
+	}
+	if !clientMayAbort && len(log.results) != len(ops) && !(!p.Stream && len(log.results) == len(ops)-1) {
+		return bad("handler executed %d of %d operations [ops %v results %v]", len(log.results), len(ops), ops, log.results)
 	}
 
 	// ---- client side
-	if nonIdentity(respEnc) && p.CliAccept != nil && !contains(normAccept(p.CliAccept), respEnc) {
+	if notAccepted {
 		// rejected as soon as the response headers are seen
 		cls("client_encoding_not_accepted")
 		if status.Code(finalErr) != codes.Internal {
@@ -686,8 +830,8 @@ func runInBubble(p plan) vk.Result {
 				return bad("client has no decompressor for %q: %d responses delivered, want the %d uncompressed ones before the first compressed message: %q", respEnc, len(gotResps), k, gotResps)
 			}
 			for i, b := range gotResps {
-				if !bytes.Equal(b, p.Resps[i]) {
-					return bad("response %d delivered as %q, sent %q", i, b, p.Resps[i])
+				if !bytes.Equal(b, sent[i]) {
+					return bad("response %d delivered as %q, sent %q", i, b, sent[i])
 				}
 			}
 			return out
@@ -695,27 +839,51 @@ func runInBubble(p plan) vk.Result {
 		cls("client_unsupported_encoding_but_all_uncompressed")
 	}
 	if finalErr != nil {
-		return bad("all encodings are supported (request %q, response %q) but the RPC failed: %v", reqEnc, respEnc, finalErr)
+		return bad("all encodings are supported (request %q, response %q) but the RPC failed: %v [handler ops %v]", reqEnc, respEnc, finalErr, ops)
 	}
-	if len(gotResps) != len(p.Resps) {
-		return bad("client received %d responses, want %d", len(gotResps), len(p.Resps))
+	if len(gotResps) != len(sent) {
+		return bad("client received %d responses, want %d", len(gotResps), len(sent))
 	}
 	for i, b := range gotResps {
-		if !bytes.Equal(b, p.Resps[i]) {
-			return bad("response %d delivered as %q, sent %q (grpc-encoding %q)", i, b, p.Resps[i], respEnc)
+		if !bytes.Equal(b, sent[i]) {
+			return bad("response %d delivered as %q, sent %q (grpc-encoding %q)", i, b, sent[i], respEnc)
 		}
 	}
-	if len(respMsgs) != len(p.Resps) || len(reqMsgs) != len(p.Reqs) {
-		return bad("wire shows %d/%d request/response messages, want %d/%d", len(reqMsgs), len(respMsgs), len(p.Reqs), len(p.Resps))
+	if len(respMsgs) != len(sent) || len(reqMsgs) != len(reqs) {
+		return bad("wire shows %d/%d request/response messages, want %d/%d", len(reqMsgs), len(respMsgs), len(reqs), len(sent))
 	}
 	cls("completed")
 	return out
 }
 
+const opsRule = "server handler = generated sequence of SetSendCompressor {gzip, A, B, identity, unregistered, legacy name; 0-3 calls, repeated with different names} / SetHeader / SendHeader (explicit flush before the first message, after some message, or never) / SetTrailer (grpc.X(ctx) and ServerStream method forms) / SendMsg of 0-4 empty or non-empty messages, a prefix of it optionally before the streaming handler starts receiving; unary, bidi and server-streaming handlers"
+
 func TestVerifC27(t *testing.T) {
 	vk.Check(t, vk.Unit[plan]{
 		ID: "C27", Name: "negotiate",
-		Rule: "one unary or bidi RPC (1-4 requests, 1-4 responses; messages empty 1/3, runs, look-alikes of compressed payloads, random bytes) per client/server pair; registered compressors gzip + two harness ones; client: UseCompressor {none, gzip, A, B, identity, unregistered}, WithCompressor {none, unregistered legacy, legacy gzip}, WithDecompressor {none, server-legacy type, gzip}, experimental.AcceptCompressors (1/3: 1-4 names incl. identity, spaces, duplicates); server: RPCCompressor {none, unregistered legacy, gzip}, RPCDecompressor {none, client-legacy type, gzip}, SetSendCompressor {not called, gzip, A, B, identity, unregistered, legacy name}. non-trivial = a non-identity grpc-encoding in a direction whose wire carries >= 1 empty and >= 1 non-empty message",
+		Rule: "one unary, bidi or server-streaming RPC (1-4 requests; messages empty 1/3, runs, look-alikes of compressed payloads, random bytes) per client/server pair; registered compressors gzip + two harness ones; client: UseCompressor {none, gzip, A, B, identity, unregistered}, WithCompressor {none, unregistered legacy, legacy gzip}, WithDecompressor {none, server-legacy type, gzip}, experimental.AcceptCompressors (1/3: 1-4 names incl. identity, spaces, duplicates); server: RPCCompressor {none, unregistered legacy, gzip}, RPCDecompressor {none, client-legacy type, gzip}; " + opsRule + ". non-trivial = a non-identity grpc-encoding in a direction whose wire carries >= 1 empty and >= 1 non-empty message, or class set_compressor_then_explicit_header_flush with a non-empty message",
 		Gen:  genPlan, Run: run,
+	})
+}
+
+// Unit "hdrorder": same executor and oracle, generator focused on the order
+// SetSendCompressor(name != stream default) -> explicit SendHeader -> messages.
+func TestVerifC27HdrOrder(t *testing.T) {
+	vk.Check(t, vk.Unit[plan]{
+		ID: "C27", Name: "hdrorder",
+		Rule: "as negotiate, restricted to configurations in which the RPC reaches the handler; the handler calls SetSendCompressor with a name that differs from the stream's default compressor (mirror of the request encoding / RPCCompressor / none) and is expected to be accepted, then flushes the headers explicitly (grpc.SendHeader / ServerStream.SendHeader), then sends 1-4 messages; noise operations (other SetSendCompressor calls incl. after the flush, SetHeader, SetTrailer, second SendHeader) around them. non-trivial = class set_compressor_then_explicit_header_flush (the accepted choice in force at an explicit flush before the first message differs from the stream default) with >= 1 non-empty message",
+		Gen:  genPlanFocused,
+		Run: func(t *testing.T, p plan) vk.Result {
+			r := run(t, p)
+			if r.Violation == "" {
+				r.NonTrivial = false
+				for _, c := range r.Classes {
+					if c == "set_compressor_then_explicit_header_flush_nonempty_msg" {
+						r.NonTrivial = true
+					}
+				}
+			}
+			return r
+		},
 	})
 }
